@@ -696,7 +696,7 @@ Lemma conc_unsynced_without_indexlock :
     quietb c = true /\ In (11, 1) (ctags c) /\ read_index (cfs c) = Some [(1, Some 10)].
 Proof.
   exists (fun _ => 1), (run (fun _ => 1) (fun _ l => l) false false true [Push 1 [5] true] init),
-         [CTag 1 10; CTag 1 11], [0; 0; 1; 1; 1; 0; 0; 1]%nat.
+         [CTag 1 10; CTag 1 11], [0; 0; 0; 1; 1; 1; 1; 0; 0; 1]%nat.
   vm_compute. split; [reflexivity|split; [now left|reflexivity]].
 Qed.
 
@@ -704,7 +704,7 @@ Qed.
    both return, an Untag, a concurrent SaveIndex and Push of the blob that exists *)
 Lemma phases_example :
   let ps := [PSeq [Done (Push 1 [5] true)];
-             PConc [CTag 1 10; CTag 1 11] [0; 0; 1; 1; 0; 0; 1; 1; 1; 1]%nat;
+             PConc [CTag 1 10; CTag 1 11] [0; 1; 0; 1; 0; 0; 0; 1; 1; 1]%nat;
              PSeq [Crashed (Untag 10) 1; Done (Untag 10)];
              PConcCrash [CTag 1 12; CSaveIndex] [0; 1; 0]%nat;
              PConc [CPush 1 [6] false; CSaveIndex] [1; 0; 1; 0; 1; 0]%nat] in
